@@ -183,7 +183,12 @@ JudgeDrain(e, n, pre, post) ==
      \* proposal of a valid NEW_VIEW (for this instance - others never enter the cache) that was waiting there
      /\ Chk(\A q \in post.pp : (q.s # n /\ q.v > 0) => \E mm \in msgs : mm.k = "NV" /\ mm.v = q.v /\ mm.pp.x = q.x /\ ValidNewView(mm, n, post.h),
             "c07_adopted_view_without_valid_new_view_at_round_start")
-     /\ Chk(post.view > 0 => \E mm \in msgs : mm.k = "NV" /\ mm.v = post.view /\ ValidNewView(mm, n, post.h), "c07_adopted_view_without_valid_new_view_at_round_start")
+     \* ... and a view above 0 right after a round start was entered through such a NEW_VIEW - or by the node's own election from
+     \* cached votes, in which case it holds its own proposal for that view (first version demanded the NEW_VIEW in both cases:
+     \* false alarm on a lagging member that drained a quorum of cached votes addressed to itself)
+     /\ Chk(post.view > 0 => \/ \E mm \in msgs : mm.k = "NV" /\ mm.v = post.view /\ ValidNewView(mm, n, post.h)
+                             \/ \E p \in post.pp : p.v = post.view /\ p.s = n,
+            "c07_adopted_view_without_valid_new_view_at_round_start")
 
 Conforms(e, n, post) ==
   LET pr == Predict(e, n) IN
